@@ -146,7 +146,9 @@ func Text(g *prng.Rng, repo string, n int) []byte {
 }
 
 var (
-	LitClasses   = []int{0, 1, 2, 3, 13, 14, 15, 16, 17, 40, 268, 269, 270, 271, 272, 15 + 255*2 - 1, 15 + 255*2, 15 + 255*2 + 1, 1000}
+	LitClasses   = []int{0, 1, 2, 3, 13, 14, 15, 16, 17, 40, 268, 269, 270, 271, 272, 15 + 255*2 - 1, 15 + 255*2, 15 + 255*2 + 1, 1000,
+		// long runs: the number of length bytes (l-15)/255+1 drifts away from estimates such as l/256
+		4094, 4095, 4096, 4350, 4351, 15 + 255*32, 20000, 66000, 140000}
 	MatchClasses = []int{4, 5, 6, 7, 8, 17, 18, 19, 20, 21, 33, 272, 273, 274, 275, 19 + 255*2 - 1, 19 + 255*2, 19 + 255*2 + 1, 5000}
 	OffClasses   = []int{1, 2, 3, 4, 5, 7, 8, 15, 16, 17, 18, 31, 32, 255, 256, 4095, 4096, 32767, 32768, 65534, 65535}
 )
